@@ -3,6 +3,7 @@ Helper lemmas for C18: abstract phase functions `q ↦ exp(iπ q)` over a field,
 the discrete transforms.
 -/
 import OdlModel.Lemmas.Fourier
+import Mathlib.Tactic.Linarith
 
 namespace OdlModel.C18
 /-- Equality of phase exponents modulo 2 (`exp(iπ a) = exp(iπ b)`). -/
@@ -72,5 +73,39 @@ theorem alongAxis_one {K : Type} [Inhabited K] (n m : Nat) (F : (Nat → K) → 
   have hk' : k < 1 * m * 1 := by omega
   rw [Array.getD_eq_getD_getElem?, Array.getElem?_ofFn]
   simp [hk, Nat.mod_eq_of_lt hk, Nat.div_eq_of_lt hk, Nat.mod_one]
+
+end OdlModel.Fourier
+
+namespace OdlModel.Fourier
+
+/-- fibre semantics of `alongAxis` at an arbitrary flat index -/
+theorem alongAxis_get {K : Type} [Inhabited K] (outer len inner outLen : Nat)
+    (F : (Nat → K) → Nat → K) (x : Array K) (idx : Nat) (h : idx < outer * outLen * inner) :
+    (alongAxis outer len inner outLen F x).getD idx default
+      = F (fun k => x.getD ((idx / inner / outLen * len + k) * inner + idx % inner) default)
+          (idx / inner % outLen) := by
+  unfold alongAxis
+  rw [Array.getD_eq_getD_getElem?, Array.getElem?_ofFn]
+  simp [h]
+
+theorem alongAxis_size {K : Type} [Inhabited K] (outer len inner outLen : Nat)
+    (F : (Nat → K) → Nat → K) (x : Array K) :
+    (alongAxis outer len inner outLen F x).size = outer * outLen * inner := by
+  simp [alongAxis]
+
+/-- index arithmetic: position `(o, k, i)` of a C-ordered `(outer, len, inner)` array -/
+theorem fibre_index (len inner o k i : Nat) (hk : k < len) (hi : i < inner) :
+    ((o * len + k) * inner + i) / inner / len = o ∧
+    ((o * len + k) * inner + i) / inner % len = k ∧
+    ((o * len + k) * inner + i) % inner = i := by
+  have hinner : 0 < inner := by omega
+  have h1 : ((o * len + k) * inner + i) / inner = o * len + k := by
+    rw [Nat.add_comm, Nat.add_mul_div_right _ _ hinner, Nat.div_eq_of_lt hi, Nat.zero_add]
+  have h2 : ((o * len + k) * inner + i) % inner = i := by
+    rw [Nat.add_comm, Nat.add_mul_mod_self_right, Nat.mod_eq_of_lt hi]
+  have hlen : 0 < len := by omega
+  refine ⟨?_, ?_, h2⟩
+  · rw [h1, Nat.add_comm, Nat.add_mul_div_right _ _ hlen, Nat.div_eq_of_lt hk, Nat.zero_add]
+  · rw [h1, Nat.add_comm, Nat.add_mul_mod_self_right, Nat.mod_eq_of_lt hk]
 
 end OdlModel.Fourier
